@@ -8,9 +8,9 @@ import DEngine.Lemmas.LeaseTiming
 Part (a): the packed `(term & 0xFFFF, 48-bit deadline)` word — round trip, validity arithmetic, the 16-bit term
 wrap, the `pack` assertion. Part (b): revocation — `revoke` invalidates, the role change always revokes and no fast
 path read is served afterwards; "revoked from the step-down decision until the role change" is **false as coded**
-(F13: the AppendEntries / ClusterConfUpdate step-down branches do not adopt the higher term, so a queued
-AppendResult re-arms the lease; the ClusterConfUpdate branch does not even revoke at once) — negation witnesses +
-`_partial` theorem for the term-adopting triggers. Part (c) (timing) is in the second half of this file.
+(F13: the ClusterConfUpdate step-down branch does not adopt the higher term, so a queued AppendResult arms the
+lease; F13b: that branch does not even revoke at once; the AppendEntries branch had the same defect until fix
+05b4801) — negation witnesses + `_partial` theorem for the term-adopting triggers. Part (c) (timing) is in the second half of this file.
 Config clause: `DEngine.C34.lease_lt_election` (re-used, not re-modelled).
 -/
 namespace DEngine.C12
@@ -172,12 +172,12 @@ def RevokedFromStepDownStatement : Prop :=
     s.stepped = false → (∀ x ∈ s.logTerms, x ≤ s.term) → isTrigger s.term op = true →
     NoLease (step c s op).2.1 ∧ ∀ o ∈ (run c (step c s op).1 ops).1, NoLease o
 
-/-- F13 witness: higher-term AppendEntries (revoked, term NOT adopted), then a queued AppendResult of the leader's
-    own term re-arms the lease before `BecomeFollower` is processed. -/
+/-- F13 witness: higher-term ClusterConfUpdate (term NOT adopted, nothing revoked — the lease is not armed yet),
+    then a queued AppendResult of the leader's own term arms the lease before `BecomeFollower` is processed. -/
 def f13Cfg : Cfg := ⟨3, [], 250⟩
 def f13State : LState := (run f13Cfg (initState 2 1 [1, 2, 2]) [.clock 10, .hb]).2.2
 theorem f13_rearm_witness :
-    (run f13Cfg (step f13Cfg f13State (.ae 3)).1 [.ack 2 2 (.success 3) 1, .read]).1
+    (run f13Cfg (step f13Cfg f13State (.cu 3)).1 [.ack 2 2 (.success 3) 1, .read]).1
       = [.state ⟨2, 3, 2, 260, true⟩ (some true), .probe true true true] := by decide
 
 /-- F13b witness: the ClusterConfUpdate step-down branch does not revoke at all until the role changes. -/
@@ -187,7 +187,7 @@ theorem f13b_no_revoke_witness :
 
 theorem revoked_from_stepdown_false : ¬ RevokedFromStepDownStatement := by
   intro h
-  have := (h f13Cfg f13State (.ae 3) [.ack 2 2 (.success 3) 1, .read] (by decide) (by decide) (by decide)).2
+  have := (h f13Cfg f13State (.cu 3) [.ack 2 2 (.success 3) 1, .read] (by decide) (by decide) (by decide)).2
   rw [f13_rearm_witness] at this
   have h2 := this (.probe true true true) (by simp)
   simp [NoLease] at h2
@@ -195,6 +195,7 @@ theorem revoked_from_stepdown_false : ¬ RevokedFromStepDownStatement := by
 /-- the triggers in which the leader adopts the higher term before it queues `BecomeFollower` -/
 def adopts (term : Nat) : Op → Bool
   | .vote t => t > term
+  | .ae t => t > term
   | .ack _ _ .netErr _ => false
   | .ack _ rt (.higherTerm t) _ => rt > term || (rt == term && t > term)
   | .ack _ rt _ _ => rt > term
@@ -296,7 +297,8 @@ theorem step_dead (c : Cfg) (s : LState) (op : Op) (h : Dead s) :
     · exact ⟨⟨hp, hl⟩, trivial⟩
     · unfold onAppendEntries; split
       · exact ⟨⟨hp, hl⟩, by simp [NoLease, observe, hp, isValid_revoked]⟩
-      · exact ⟨⟨rfl, hl⟩, by simp [NoLease, observe, isValid_revoked]⟩
+      · rename_i h1
+        exact ⟨⟨rfl, fun x hx => by have := hl x hx; simp only; omega⟩, by simp [NoLease, observe, isValid_revoked]⟩
   | cu t =>
     simp only [step]; split
     · exact ⟨⟨hp, hl⟩, trivial⟩
@@ -318,9 +320,9 @@ theorem run_dead (c : Cfg) (ops : List Op) : ∀ s, Dead s → ∀ o ∈ (run c 
     · exact hn
     · exact ih _ hd o ho
 
-/-- **Partial theorem (exact excluded trigger: the step-down was decided by a higher-term AppendEntries or
-    ClusterConfUpdate, the two branches that do not adopt the term).** For the triggers that adopt the higher term
-    — VoteRequest, higher response term, embedded HigherTerm result — the lease is revoked at once and stays
+/-- **Partial theorem (exact excluded trigger: the step-down was decided by a higher-term ClusterConfUpdate, the
+    one branch that does not adopt the term).** For the triggers that adopt the higher term — VoteRequest,
+    AppendEntries (since fix 05b4801), higher response term, embedded HigherTerm result — the lease is revoked at once and stays
     unusable under every later sequence of acknowledgements, heartbeats, clock values and inbound events. -/
 theorem revoked_from_stepdown_partial (c : Cfg) (s : LState) (op : Op) (ops : List Op)
     (hs : s.stepped = false) (hlog : ∀ x ∈ s.logTerms, x ≤ s.term) (htrig : adopts s.term op = true) :
@@ -330,6 +332,11 @@ theorem revoked_from_stepdown_partial (c : Cfg) (s : LState) (op : Op) (ops : Li
     | vote t =>
       have ht : s.term < t := by simpa [adopts] using htrig
       simp only [step, hs, onVoteRequest, ht, if_true]
+      exact ⟨⟨rfl, fun x hx => by have := hlog x hx; show x < t; omega⟩, by simp [NoLease, observe, isValid_revoked]⟩
+    | ae t =>
+      have ht : ¬ s.term ≥ t := by have : t > s.term := by simpa [adopts] using htrig
+                                   omega
+      simp only [step, hs, onAppendEntries, ht, if_false]
       exact ⟨⟨rfl, fun x hx => by have := hlog x hx; show x < t; omega⟩, by simp [NoLease, observe, isValid_revoked]⟩
     | ack p rt r rd =>
       simp only [step, hs]
